@@ -608,6 +608,66 @@ fn run_ivcast(a: &Args) -> Args {
     }
 }
 
+// ------------------------------------------------------------------ interval / duration text
+/// one-column array for the text ops. kind 0 Interval(MonthDayNano) (a b c = months days nanos), 1 Interval(DayTime)
+/// (a b = days millis), 2 Interval(YearMonth) (a = months), 3 Duration(unit c) (a = value)
+fn iv_array(kind: i64, valid: &[bool], a: &Group, b: &Group, c: &Group) -> ArrayRef {
+    use arrow_buffer::{IntervalDayTime, IntervalMonthDayNano};
+    let n = valid.len();
+    let at = |g: &Group, i: usize| -> i64 { i64::try_from(&g[i]).expect("i64") };
+    let nb = nulls_of(valid, false);
+    match kind {
+        0 => Arc::new(PrimitiveArray::<IntervalMonthDayNanoType>::new(ScalarBuffer::from((0..n).map(|i| IntervalMonthDayNano::new(at(a, i) as i32, at(b, i) as i32, at(c, i))).collect::<Vec<_>>()), nb)),
+        1 => Arc::new(PrimitiveArray::<IntervalDayTimeType>::new(ScalarBuffer::from((0..n).map(|i| IntervalDayTime::new(at(a, i) as i32, at(b, i) as i32)).collect::<Vec<_>>()), nb)),
+        2 => Arc::new(PrimitiveArray::<IntervalYearMonthType>::new(ScalarBuffer::from((0..n).map(|i| at(a, i) as i32).collect::<Vec<_>>()), nb)),
+        _ => {
+            let u = at(c, 0) as u8;
+            let vals: Vec<i64> = (0..n).map(|i| at(a, i)).collect();
+            let dt = DataType::Duration(unit(u));
+            match u {
+                0 => Arc::new(PrimitiveArray::<DurationSecondType>::new(ScalarBuffer::from(vals), nb).with_data_type(dt)) as ArrayRef,
+                1 => Arc::new(PrimitiveArray::<DurationMillisecondType>::new(ScalarBuffer::from(vals), nb).with_data_type(dt)),
+                2 => Arc::new(PrimitiveArray::<DurationMicrosecondType>::new(ScalarBuffer::from(vals), nb).with_data_type(dt)),
+                _ => Arc::new(PrimitiveArray::<DurationNanosecondType>::new(ScalarBuffer::from(vals), nb).with_data_type(dt)),
+            }
+        }
+    }
+}
+/// c13.ivfmt: [kind, strkind] [a] [b] [c] (one value) -> bytes of cast(.. -> string type); durations use DurationFormat::Pretty
+fn run_ivfmt(a: &Args) -> Args {
+    let ks = to_i64s(&a[0]);
+    let (kind, strkind) = (ks[0], ks[1]);
+    let arr = iv_array(kind, &[true], &a[1], &a[2], &a[3]);
+    let o = CastOptions { safe: false, format_options: FormatOptions::default().with_duration_format(arrow_cast::display::DurationFormat::Pretty) };
+    match cast_with_options(&arr, &str_dt(strkind), &o) {
+        Err(e) => err_kind(&e),
+        Ok(r) => match str_get(&r, 0) { Some(s) => vec![gbytes(s.as_bytes())], None => vec![gs(&[-2i64, 5])] },
+    }
+}
+/// c13.ivtext_rt: [kind, strkind] [validity] [a] [b] [c]: interval -> string -> interval (strict); the column that comes back
+fn run_ivtext_rt(a: &Args) -> Args {
+    use arrow_buffer::{IntervalDayTime, IntervalMonthDayNano};
+    let ks = to_i64s(&a[0]);
+    let (kind, strkind) = (ks[0], ks[1]);
+    let valid = to_bools(&a[1]);
+    let n = valid.len();
+    let arr = iv_array(kind, &valid, &a[2], &a[3], &a[4]);
+    let s = match cast_with_options(&arr, &str_dt(strkind), &opts(false)) { Ok(s) => s, Err(e) => return err_kind(&e) };
+    if s.null_count() != arr.null_count() { return vec![gs(&[-2i64, 6])]; }
+    let back = match cast_with_options(&s, arr.data_type(), &opts(false)) { Ok(b) => b, Err(e) => return err_kind(&e) };
+    if back.len() != n || back.data_type() != arr.data_type() { return vec![gs(&[-2i64, 2])]; }
+    let v: Vec<bool> = (0..n).map(|i| back.is_valid(i)).collect();
+    let col = |f: &dyn Fn(usize) -> i64| -> Group { (0..n).map(|i| if v[i] { BigInt::from(f(i)) } else { BigInt::zero() }).collect() };
+    match kind {
+        0 => { let p = back.as_any().downcast_ref::<PrimitiveArray<IntervalMonthDayNanoType>>().expect("mdn"); let x = |i: usize| -> IntervalMonthDayNano { p.value(i) };
+               vec![gbools(v.clone()), col(&|i| x(i).months as i64), col(&|i| x(i).days as i64), col(&|i| x(i).nanoseconds)] }
+        1 => { let p = back.as_any().downcast_ref::<PrimitiveArray<IntervalDayTimeType>>().expect("dt"); let x = |i: usize| -> IntervalDayTime { p.value(i) };
+               vec![gbools(v.clone()), col(&|i| x(i).days as i64), col(&|i| x(i).milliseconds as i64)] }
+        _ => { let p = back.as_any().downcast_ref::<PrimitiveArray<IntervalYearMonthType>>().expect("ym");
+               vec![gbools(v.clone()), col(&|i| p.value(i) as i64)] }
+    }
+}
+
 pub fn run(op: &str, a: &Args) -> Option<Args> {
     Some(match op {
         "c13.cast" | "c13.cast_m" => run_cast(a),
@@ -620,6 +680,8 @@ pub fn run(op: &str, a: &Args) -> Option<Args> {
         "c13.cancast" => run_cancast(a),
         "c13.dtype_rt" => run_dtype_rt(a),
         "c13.ivcast" => run_ivcast(a),
+        "c13.ivfmt" => run_ivfmt(a),
+        "c13.ivtext_rt" => run_ivtext_rt(a),
         _ => return None,
     })
 }
@@ -1284,11 +1346,107 @@ fn gen_interval(thorough: bool, r: &mut Rng, emit: &mut dyn FnMut(Case)) {
     } }
 }
 
+/// Text form of intervals and (pretty) durations: the h / m / s decomposition of display.rs must be exercised above
+/// one hour and one day, with both signs, with and without the calendar parts. `c13.ivfmt` compares the text with the
+/// formatter model, `c13.ivtext_rt` checks interval -> text -> interval = identity (the reverse cast exists for the
+/// three interval types; Duration has no parser for its text).
+fn gen_interval_text(thorough: bool, r: &mut Rng, emit: &mut dyn FnMut(Case)) {
+    let mut k = 0i64;
+    let mut pm = |v: Vec<i64>| -> Vec<i64> { let mut o = Vec::new(); for x in v { o.push(x); if x != 0 { o.push(x.wrapping_neg()); } } o };
+    // Interval(DayTime)
+    let mut ms = pm(vec![0, 1, 999, 1_000, 1_001, 59_999, 60_000, 60_001, 3_599_999, 3_600_000, 3_600_001, 3_661_001, 7_322_002, 86_399_999, 86_400_000, 86_400_001, 90_061_001, i32::MAX as i64]);
+    ms.push(i32::MIN as i64);
+    for _ in 0..(if thorough { 200 } else { 16 }) { ms.push(r.next() as i32 as i64 >> r.below(12)); }
+    let dt_days: [i64; 5] = [0, 1, -3, i32::MAX as i64, i32::MIN as i64];
+    let mut rows: Vec<(i64, i64)> = Vec::new();
+    for (j, &m) in ms.iter().enumerate() { for (i, &d) in dt_days.iter().enumerate() { if thorough || i < 2 || (i + j) % 3 == 0 { rows.push((d, m)); } } }
+    for &(d, m) in &rows {
+        emit(Case::new("c13.ivfmt", vec![gs(&[1i64, k % 3]), g(d), g(m), vec![]], &["c13.ivfmt"], format!("ivfmt/daytime/d{}h{}", (d != 0) as u8, (m.abs() >= 3_600_000) as u8 + (m.abs() >= 86_400_000) as u8)));
+        k += 1;
+    }
+    for chunk in rows.chunks(24) {
+        let valid: Vec<bool> = chunk.iter().map(|_| !r.chance(1, 8)).collect();
+        let (a, b): (Vec<i64>, Vec<i64>) = chunk.iter().cloned().unzip();
+        emit(Case::new("c13.ivtext_rt", vec![gs(&[1i64, k % 3]), gbools(valid), gs(&a), gs(&b), vec![]], &["c13.ivtext_rt.spec"], "ivtext_rt/daytime".to_string()));
+        k += 1;
+    }
+    // Interval(MonthDayNano)
+    let mut ns = pm(vec![0, 1, 999_999_999, 1_000_000_000, 1_000_000_001, 59_999_999_999, 60_000_000_000, 3_599_999_999_999, 3_600_000_000_000, 3_600_000_000_001,
+                         3_661_000_000_001, 3_661_001_000_000, 86_399_999_999_999, 86_400_000_000_000, 86_400_000_000_001, 90_061_000_000_001, i64::MAX]);
+    ns.push(i64::MIN);
+    for _ in 0..(if thorough { 200 } else { 16 }) { ns.push(r.next() as i64 >> r.below(30)); }
+    let md: [(i64, i64); 5] = [(0, 0), (1, 0), (0, -2), (-14, 3), (i32::MAX as i64, i32::MIN as i64)];
+    let mut rows3: Vec<(i64, i64, i64)> = Vec::new();
+    for (j, &n) in ns.iter().enumerate() { for (i, &(mo, d)) in md.iter().enumerate() { if thorough || i < 2 || (i + j) % 3 == 0 { rows3.push((mo, d, n)); } } }
+    for &(mo, d, n) in &rows3 {
+        emit(Case::new("c13.ivfmt", vec![gs(&[0i64, k % 3]), g(mo), g(d), g(n)], &["c13.ivfmt"], format!("ivfmt/mdn/m{}d{}h{}", (mo != 0) as u8, (d != 0) as u8, (n.unsigned_abs() >= 3_600_000_000_000) as u8 + (n.unsigned_abs() >= 86_400_000_000_000) as u8)));
+        k += 1;
+    }
+    for chunk in rows3.chunks(24) {
+        let valid: Vec<bool> = chunk.iter().map(|_| !r.chance(1, 8)).collect();
+        let a: Vec<i64> = chunk.iter().map(|x| x.0).collect(); let b: Vec<i64> = chunk.iter().map(|x| x.1).collect(); let c: Vec<i64> = chunk.iter().map(|x| x.2).collect();
+        emit(Case::new("c13.ivtext_rt", vec![gs(&[0i64, k % 3]), gbools(valid), gs(&a), gs(&b), gs(&c)], &["c13.ivtext_rt.spec"], "ivtext_rt/mdn".to_string()));
+        k += 1;
+    }
+    // Interval(YearMonth)
+    let mut ym = pm(vec![0, 1, 11, 12, 13, 23, 24, 119, 120, 2_147_483_640, i32::MAX as i64]);
+    ym.push(i32::MIN as i64);
+    for _ in 0..12 { ym.push(r.next() as i32 as i64 >> r.below(20)); }
+    for &v in &ym { emit(Case::new("c13.ivfmt", vec![gs(&[2i64, k % 3]), g(v), vec![], vec![]], &["c13.ivfmt"], "ivfmt/yearmonth".to_string())); k += 1; }
+    // NOTE (minor, reported): "-178956971 years 4 mons" (i32::MIN months) is printed but the parser computes years * 12 in
+    // i32 and overflows; values below -2_147_483_640 are left out of the round trip.
+    let ym_rt: Vec<i64> = ym.iter().cloned().filter(|v| *v >= -2_147_483_640).collect();
+    for chunk in ym_rt.chunks(24) {
+        let valid: Vec<bool> = chunk.iter().map(|_| !r.chance(1, 8)).collect();
+        emit(Case::new("c13.ivtext_rt", vec![gs(&[2i64, k % 3]), gbools(valid), gs(chunk), vec![], vec![]], &["c13.ivtext_rt.spec"], "ivtext_rt/yearmonth".to_string()));
+        k += 1;
+    }
+    // Duration, DurationFormat::Pretty (days / hours / mins / secs decomposition); chrono rejects |seconds| > i64::MAX / 1000
+    // and i64::MIN milliseconds ("<invalid>"): outside the model
+    for u in 0..4i64 {
+        let p: i64 = 10i64.pow(3 * u as u32);
+        let mut vs = pm(vec![0, 1, 59, 60, 61, 3_599, 3_600, 3_601, 3_661, 86_399, 86_400, 86_401, 90_061, 7 * 86_400 + 3_723]);
+        let scaled: Vec<i64> = vs.iter().map(|v| v * p + if p > 1 { (v % 7) * (p / 10) + (v % 2) } else { 0 }).collect();
+        vs.extend(scaled);
+        vs.extend(pm(vec![999, 1_000, 1_500, 123_456_789_012, if u == 0 { i64::MAX / 1000 } else { i64::MAX }]));
+        if u >= 2 { vs.push(i64::MIN); }
+        for _ in 0..8 { vs.push((r.next() as i64 >> r.below(40)) / if u == 0 { 1024 } else { 1 }); }
+        for &v in &vs {
+            if u == 0 && v.unsigned_abs() > (i64::MAX / 1000) as u64 { continue; }
+            emit(Case::new("c13.ivfmt", vec![gs(&[3i64, k % 3]), g(v), vec![], g(u)], &["c13.ivfmt"], format!("ivfmt/duration{u}/d{}", (v.unsigned_abs() / p as u64 >= 86_400) as u8)));
+            k += 1;
+        }
+    }
+}
+
+/// Fixed regression inputs (witnesses of changes that earlier generators missed); emitted first on every run.
+/// (Kept here rather than in corpus/C13.cases: the corpus is replayed by a second harness invocation, and the harness
+/// binary is shared between concurrently running checks that rebuild it with other feature sets.)
+fn gen_regressions(emit: &mut dyn FnMut(Case)) {
+    // Interval(MonthDayNano) -> Duration needs months = 0 AND days = 0 in both modes
+    for u in [0i64, 3] { for safe in 0..2i64 {
+        for (m, d, n) in [(1i64, 0i64, 5_000_000_000i64), (0, 1, 5_000_000_000), (-1, 0, -1), (0, 0, 5_000_000_001)] {
+            emit(Case::new("c13.ivcast", vec![gs(&[0i64, u]), g(safe), gbools([true]), g(m), g(d), g(n), gs(&[0i64, 0])], &["c13.ivcast", "c13.ivcast.spec"], "regress/mdn>dur".to_string()));
+        }
+    } }
+    // time part of the interval text at and above one hour
+    for (i, (d, ms)) in [(0i64, 3_661_001i64), (0, -3_661_001), (2, 86_399_999), (-3, 3_600_000), (0, i32::MAX as i64), (0, i32::MIN as i64)].into_iter().enumerate() {
+        emit(Case::new("c13.ivfmt", vec![gs(&[1i64, 0]), g(d), g(ms), vec![]], &["c13.ivfmt"], "regress/daytime-text".to_string()));
+        emit(Case::new("c13.ivtext_rt", vec![gs(&[1i64, (i % 3) as i64]), gbools([true]), g(d), g(ms), vec![]], &["c13.ivtext_rt.spec"], "regress/daytime-text".to_string()));
+    }
+    for (i, (m, d, n)) in [(0i64, 0i64, 3_661_000_000_001i64), (1, -2, -90_061_000_000_001), (0, 0, i64::MAX)].into_iter().enumerate() {
+        emit(Case::new("c13.ivfmt", vec![gs(&[0i64, 0]), g(m), g(d), g(n)], &["c13.ivfmt"], "regress/mdn-text".to_string()));
+        emit(Case::new("c13.ivtext_rt", vec![gs(&[0i64, (i % 3) as i64]), gbools([true]), g(m), g(d), g(n)], &["c13.ivtext_rt.spec"], "regress/mdn-text".to_string()));
+    }
+}
+
 pub fn generate(tier: &str, r: &mut Rng, emit: &mut dyn FnMut(Case)) {
     let thorough = tier == "thorough";
+    gen_regressions(emit);
     gen_values(thorough, r, emit);
     gen_inverse(thorough, r, emit);
     gen_interval(thorough, r, emit);
+    gen_interval_text(thorough, r, emit);
     gen_text(thorough, r, emit);
     gen_cancast(thorough, r, emit);
     gen_dtype(thorough, r, emit);
